@@ -24,6 +24,8 @@ const preludeHeap = `
 (assert (forall ((i Int) (r Int)) (! (and (= (fld-ref (fld i r)) r) (= (fld-id (fld i r)) i) (< (fld i r) (- 10000000)) (= (refkind (fld i r)) 1) (= (root (fld i r)) (root r))) :pattern ((fld i r)))))
 (assert (forall ((b Int) (i Int)) (! (and (= (elem-base (elemref b i)) b) (= (elem-idx (elemref b i)) i) (< (elemref b i) (- 10000000)) (= (refkind (elemref b i)) 2) (= (root (elemref b i)) (root b))) :pattern ((elemref b i)))))
 (assert (forall ((r Int)) (! (=> (> r (- 10000000)) (= (root r) r)) :pattern ((root r)))))
+(assert (forall ((r Int)) (! (=> (= (refkind r) 2) (= r (elemref (elem-base r) (elem-idx r)))) :pattern ((elem-base r)))))
+(assert (forall ((r Int)) (! (=> (= (refkind r) 1) (= r (fld (fld-id r) (fld-ref r)))) :pattern ((fld-ref r)))))
 (declare-fun strbyte (Int Int) Int)
 (assert (forall ((s Int) (i Int)) (! (and (<= 0 (strbyte s i)) (<= (strbyte s i) 255)) :pattern ((strbyte s i)))))
 (declare-fun substr (Int Int Int) Int)
